@@ -1,6 +1,10 @@
 package ircserver
 
-import "gopkg.in/sorcix/irc.v2"
+import (
+	"strings"
+
+	"gopkg.in/sorcix/irc.v2"
+)
 
 func init() {
 	Commands["USER"] = &ircCommand{
@@ -20,7 +24,9 @@ func (i *IRCServer) cmdUser(s *Session, reply *Replyctx, msg *irc.Message) {
 	// (some people actually set it and look at it).
 	s.Username = msg.Params[0]
 	if len(s.Username) > maxUserLen {
-		s.Username = s.Username[:maxUserLen]
+		// Do not keep half of a multi-byte character: the snapshot cannot
+		// serialize strings which are not valid UTF-8.
+		s.Username = strings.ToValidUTF8(s.Username[:maxUserLen], "")
 	}
 	s.Realname = msg.Trailing()
 	s.updateIrcPrefix()
